@@ -26,13 +26,30 @@
 (*        another request (no restart)                                     *)
 (*   S14  the initiator verifies the reply signature over the dh1 echoed   *)
 (*        in the reply and never compares it with its own dh1              *)
+(*                                                                         *)
+(* Strengthening round: every delivery additionally REMOVES a set `strip`  *)
+(* of properties whose inclusion the standard leaves to the sender         *)
+(* (HandshakeAbs!OptProps), from fresh, recorded (ids 11-13) and altered   *)
+(* messages alike -- an attacker on the plaintext channel can always do    *)
+(* that, and none of these properties is signed as carried.  The           *)
+(* acceptance function says which checks of authentication.rs are made     *)
+(* only when the property is there (hash_c1 in begin_handshake_reply is    *)
+(* the sole protection of c.perm / c.pdata / c.dsign_algo of the unsigned  *)
+(* request: alteration class "b:c.perm") and which are unconditional       *)
+(* (challenge1 of the reply, challenge1/2 + dh1/dh2 of the final, every    *)
+(* signature -- computed over the receiver's OWN hashes).  `Weak` names    *)
+(* checks that are (wrongly) made only in the presence of an optional      *)
+(* property; MC_Handshake_weak.cfg shows that the judge then fires, i.e.   *)
+(* the new dimension is not vacuous.                                       *)
 (***************************************************************************)
 EXTENDS HandshakeAbs, Json
 
 CONSTANTS MaxAtk,   \* attacker deliveries per run
           Fix,      \* deviations repaired in this model instance
           Known,    \* deviations listed as known findings
-          Gen       \* TRUE: dump behaviours for replay
+          Gen,      \* TRUE: dump behaviours for replay
+          StripProps, \* optional properties the attacker removes in this model instance
+          Weak      \* checks (wrongly) guarded by the presence of an optional property: subset of {"ch1@reply"}
 
 VARIABLES alive,    \* the plugin still holds its handshake state (S7 destroys it)
           atk, trail
@@ -40,7 +57,8 @@ vars == <<absVars, alive, atk, trail>>
 
 Init == AbsInit /\ alive = [p \in Parties |-> TRUE] /\ atk = 0 /\ trail = <<>>
 
-AltsFor(k) == IF k = "req" THEN {"none", "det", "b:dh1", "b:challenge1"} ELSE {"none", "det"}
+AltsFor(k) == IF k = "req" THEN {"none", "det", "b:dh1", "b:challenge1", "b:c.perm"} ELSE {"none", "det"}
+StripsFor(k) == SUBSET (OptProps(k) \cap StripProps)
 
 Call(to, mid) ==
   IF ds[to] = "ReqMsg" THEN "begin_reply"
@@ -49,50 +67,61 @@ Call(to, mid) ==
   ELSE "none"
 
 \* transcription of the checks in authentication.rs
-Accepts(to, mid, alt) ==
-  LET m == msgs[mid] c == Call(to, mid) IN
+Accepts(to, mid, alt, strip) ==
+  LET m == msgs[mid] c == Call(to, mid)
+      \* types.rs extract_reply / extract_final insist on dh1 / dh2 (the standard calls them optional)
+      parses == strip \cap {"dh1", "dh2"} = {}
+  IN
   CASE c = "begin_reply" ->
-         \* parse, CA, GUID binding, kagree, hash_c1; dh1 / challenge1 are taken as they come;
-         \* an old request is self-consistent
-         m.k = "req" /\ alt \in {"none", "b:dh1", "b:challenge1"}
+         \* parse, CA, GUID binding, kagree; dh1 / challenge1 are taken as they come; an old request is
+         \* self-consistent; hash_c1 is compared with Hash(C1 as received) ONLY IF PRESENT, and nothing
+         \* else covers c.perm / c.pdata (beyond the GUID) / c.dsign_algo of the unsigned request
+         m.k = "req" /\ (alt \in {"none", "b:dh1", "b:challenge1"} \/ (alt = "b:c.perm" /\ "hash_c1" \in strip))
     [] c = "process" /\ ds[to] = "Reply" ->
          /\ alive[to] \/ "S7" \in Fix
-         /\ m.k = "reply" /\ alt = "none" /\ mid = 2
-         \* challenge1 must be ours; dh1 is not compared (S14)
-         /\ m.ralt \in ({"none"} \cup (IF "S14" \in Fix THEN {} ELSE {"b:dh1"}))
+         /\ m.k = "reply" /\ alt = "none" /\ parses
+         \* hash_c1 / hash_c2 compared only if present, but the signature is verified over the initiator's
+         \* own hash_c1 and the recomputed hash_c2: a reply built on an altered C1 never verifies
+         /\ \/ /\ mid = 2
+               \* challenge1 must be ours (unconditional); dh1 is not compared (S14)
+               /\ m.ralt \in ({"none"} \cup (IF "S14" \in Fix THEN {} ELSE {"b:dh1"}))
+            \* weakened: challenge1 compared only together with hash_c1 -> any reply B ever signed for this C1
+            \/ "ch1@reply" \in Weak /\ "hash_c1" \in strip /\ m.by = "B" /\ m.ralt \in {"none", "old"}
     [] c = "process" /\ ds[to] = "Final" ->
          /\ alive[to] \/ "S7" \in Fix
-         /\ m.k = "final" /\ alt = "none" /\ mid = 3
-         \* hash_c1/2, dh1, dh2, challenge1/2 equal to what this replier stored
+         /\ m.k = "final" /\ alt = "none" /\ mid = 3 /\ parses
+         \* dh1, dh2, challenge1/2 equal to what this replier stored (unconditional), hash_c1/2 if present,
+         \* signature over the replier's own values
          /\ accAlt[to] = "none" /\ m.ralt = "none"
     [] OTHER -> FALSE
 
 Req ==
   /\ ds["A"] = "ReqSend"
   /\ AbsReq(Known, "acc", 1, sec)
-  /\ trail' = IF Gen THEN Append(trail, [a |-> "Req", to |-> "A", mid |-> 0, alt |-> "none"]) ELSE trail
+  /\ trail' = IF Gen THEN Append(trail, [a |-> "Req", to |-> "A", mid |-> 0, alt |-> "none", strip |-> {}]) ELSE trail
   /\ UNCHANGED <<alive, atk>>
 
-Dlv(to, mid, alt) ==
+Dlv(to, mid, alt, strip) ==
   LET c   == Call(to, mid)
-      acc == Accepts(to, mid, alt)
+      acc == Accepts(to, mid, alt, strip)
       out == IF c = "none" THEN "ign" ELSE IF acc THEN "acc" ELSE "rej"
       emit == IF ~acc THEN 0 ELSE IF c = "begin_reply" THEN 2 ELSE IF ds[to] = "Reply" THEN 3 ELSE 0
       s2  == [sec EXCEPT ![to] = IF acc /\ c = "process" THEN 1 ELSE @]
-      cost == IF Expected(to, mid, alt) THEN 0 ELSE 1
+      cost == IF Expected(to, mid, alt, strip) THEN 0 ELSE 1
   IN
-  /\ mid \in DOMAIN msgs /\ alt \in AltsFor(msgs[mid].k)
+  /\ mid \in DOMAIN msgs /\ alt \in AltsFor(msgs[mid].k) /\ strip \in StripsFor(msgs[mid].k)
   /\ atk + cost <= MaxAtk
   /\ atk' = atk + cost
-  /\ AbsDlv(Known, to, mid, alt, c, out, emit, s2)
+  /\ AbsDlv(Known, to, mid, alt, strip, c, out, emit, s2)
   /\ alive' = [alive EXCEPT ![to] = IF c = "process" /\ ~acc /\ "S7" \notin Fix THEN FALSE
                                      ELSE IF c = "begin_reply" /\ acc THEN TRUE ELSE @]
-  /\ trail' = IF Gen THEN Append(trail, [a |-> "Dlv", to |-> to, mid |-> mid, alt |-> alt]) ELSE trail
+  /\ trail' = IF Gen THEN Append(trail, [a |-> "Dlv", to |-> to, mid |-> mid, alt |-> alt, strip |-> strip]) ELSE trail
 
-Next == Req \/ \E to \in Parties, mid \in {1, 2, 3, 11, 12, 13}, alt \in {"none", "det", "b:dh1", "b:challenge1"} : Dlv(to, mid, alt)
+Next == Req \/ \E to \in Parties, mid \in {1, 2, 3, 11, 12, 13}, alt \in {"none", "det", "b:dh1", "b:challenge1", "b:c.perm"},
+                 strip \in SUBSET AllOptProps : Dlv(to, mid, alt, strip)
 
 \* genuine progress: deliveries that cost the attacker nothing
-Genuine == Req \/ \E to \in Parties, mid \in {1, 2, 3} : (Expected(to, mid, "none") /\ Dlv(to, mid, "none"))
+Genuine == Req \/ \E to \in Parties, mid \in {1, 2, 3} : (Expected(to, mid, "none", {}) /\ Dlv(to, mid, "none", {}))
 
 Spec == Init /\ [][Next]_vars /\ WF_vars(Genuine)
 
